@@ -101,6 +101,10 @@ type Sim struct {
 	pipes   [2]*Pipe // pipes[0]: client -> server, pipes[1]: server -> client
 	plan    FaultPlan
 	latency time.Duration
+	// OnEmit, when set, runs synchronously inside the transport's send function after the packet
+	// has been queued and before the call returns to the connection: a relay that times its
+	// deliveries against the sender's progress
+	OnEmit func(ep int, pkt []byte, by string)
 }
 
 func NewSim(t *testing.T, plan FaultPlan, latency time.Duration) *Sim {
@@ -208,6 +212,9 @@ func (s *Sim) sendFunc(ep int) func(ctx context.Context, b []byte) error {
 		select {
 		case p.notify <- struct{}{}:
 		default:
+		}
+		if h := s.OnEmit; h != nil {
+			h(ep, cp, by)
 		}
 		return nil
 	}
